@@ -89,25 +89,37 @@ def run(repo, tier):
     fi = repo.func(F + ".logaddexp2")
     role = "the (-inf, -inf) case returns -inf before any subtraction (inf - inf would be NaN)"
     body = [s for s in fi.node.body if not (isinstance(s, ast.Expr) and isinstance(s.value, ast.Constant))]
-    first_arith = None
-    for k, s in enumerate(body):
-        if any(isinstance(n, ast.BinOp) and isinstance(n.op, ast.Sub) for n in ast.walk(s)):
-            first_arith = k
-            break
-    guard = None
-    for k, s in enumerate(body):
-        if isinstance(s, ast.If):
-            t = unparse(s.test).replace('"', "'")
-            if "float('-inf')" in t or "-numpy.inf" in t or "-math.inf" in t or "isinf" in t:
-                if any(isinstance(b, ast.Return) for b in s.body):
-                    guard = k
-                    break
-    if first_arith is None:
-        out.append(unrecognised("LOGADD", fi, role, "no subtraction found in logaddexp2"))
-    elif guard is None or guard > first_arith:
-        out.append(violation("LOGADD", fi, role, "the difference of the operands is formed without a preceding -inf guard", body[first_arith]))
+    # path facts: on every path that returns an arithmetic expression of the operands, "x is -inf" and "y is -inf" are not both taken
+    from .. import equiv
+    try:
+        paths = equiv.path_facts(fi.node)
+    except equiv.TooManyPaths:
+        paths = None
+    NEG = ("float('-inf'|)", "-numpy.inf", "-math.inf", "-1*numpy.inf", "-1*math.inf")
+
+    def is_neg_test(k, var):
+        return k.startswith("Eq(") and any(n in k for n in NEG) and (k.endswith(",%s)" % var) or k.startswith("Eq(%s," % var))
+    if paths is None:
+        out.append(unrecognised("LOGADD", fi, role, "too many paths"))
     else:
-        out.append(holds("LOGADD", fi, role, "guard `%s` precedes the arithmetic" % unparse(body[guard].test)[:60], body[guard]))
+        arith = [p for p in paths if p["outcome"] and p["outcome"][0] == "return" and ("-1*" in p["outcome"][1] or "math.pow" in p["outcome"][1])]
+        bad = [p for p in arith if any(is_neg_test(k, "x") and v for k, v in p["decisions"].items())
+               and any(is_neg_test(k, "y") and v for k, v in p["decisions"].items())]
+        # a path that returns arithmetic without ever having tested both operands against -inf
+        untested = [p for p in arith if not (any(is_neg_test(k, "x") for k in p["decisions"]) or any(is_neg_test(k, "y") for k in p["decisions"]))]
+        both = [p for p in paths if any(is_neg_test(k, "x") and v for k, v in p["decisions"].items())
+                and any(is_neg_test(k, "y") and v for k, v in p["decisions"].items())]
+        first_sub = next((s_ for s_ in body if any(isinstance(n, ast.BinOp) and isinstance(n.op, ast.Sub) for n in ast.walk(s_))), fi.node)
+        if not arith:
+            out.append(unrecognised("LOGADD", fi, role, "no path returns an arithmetic expression of the operands"))
+        elif bad or untested:
+            out.append(violation("LOGADD", fi, role, "a path reaches the arithmetic with x = y = -inf (%s): vmin - vmax = -inf - (-inf) = NaN" % (
+                "both tests true" if bad else "operands never tested against -inf"), first_sub,
+                witness={"decisions": (bad or untested)[0]["decisions"]}))
+        elif not both or any(p["outcome"] is None or "-inf" not in str(p["outcome"]) for p in both):
+            out.append(unrecognised("LOGADD", fi, role, "no path takes both -inf tests / it does not return -inf: %s" % [p["outcome"] for p in both][:2]))
+        else:
+            out.append(holds("LOGADD", fi, role, "%d arithmetic path(s), none with x = y = -inf; the (-inf, -inf) path returns -inf" % len(arith), first_sub))
     role = "result is max + log2(2**(min - max) + 1)"
     ret = [s for s in body if isinstance(s, ast.Return)][-1:] if body else []
     t = unparse(ret[0].value) if ret else ""
@@ -335,7 +347,7 @@ def dp_rules(fi):
     out = []
     src = [unparse(s) for s in walk_no_nested(fi.node) if isinstance(s, (ast.Assign, ast.AugAssign))]
     role = "table extent covers [smallest, largest] of the attainable integer scores"
-    alloc = [t for t in src if "numpy.empty(" in t or "numpy.ones(" in t]
+    alloc = [t for t in src if "numpy.empty(" in t or "numpy.ones(" in t or "numpy.full(" in t or "numpy.zeros(" in t]
     ok = any("largest - smallest + 1" in t for t in alloc) and len(alloc) >= 2
     out.append((holds if ok else unrecognised)("DP", fi, role, "; ".join(alloc)[:120], fi.node, nontrivial=False))
     role = "convolution step adds the column's log-probability mass at the shifted score: logpdf[j + s] (+)= log_bg + old[j]"
